@@ -22,6 +22,7 @@ def check(ctx):
     nic = _hc.check_int_casts(ctx, rep)
     rep.floor("lookup-free UTC results in the Zinc reader", nu, 1)
     _hc.check_nothing_dropped(ctx, rep, "encoding/zinc/encode.rs")
+    _hc.check_text_verbatim(ctx, rep)
     nmg = _hc.check_member_guards(ctx, rep)
     rep.floor("Hayson member / element write sites", nmg, 38)
     n1 = streams.check_reader_calls(ctx, rep)
